@@ -5,7 +5,7 @@
   * runs implementation and model on the same cases, compares, searches, writes evidence,
   * prints VIOLATION / KNOWN-FINDING lines according to known_findings.json.
 """
-import hashlib, json, os, subprocess, sys, time, glob, shutil, struct, random, math
+import hashlib, json, os, re, subprocess, sys, time, glob, shutil, struct, random, math
 from concurrent.futures import ThreadPoolExecutor
 
 VERIF = os.path.dirname(os.path.dirname(os.path.abspath(__file__)))
@@ -483,6 +483,18 @@ class Check:
             except Exception as e:
                 self.cov["coqchk"] = dict(error=str(e)[:200])
         if not res["ok"]:
+            # what the translators could not read (or read as something else) in the current source: the first thing to look at
+            import glob as _glob
+            tf = []
+            for g in sorted(_glob.glob(os.path.join(COQ, "*_gen.v"))):
+                try:
+                    mm = re.search(r"\(\* translation failed: (.*?) \*\)", read(g, "r"), re.S)
+                except Exception:
+                    mm = None
+                if mm:
+                    tf.append("%s: %s" % (os.path.basename(g), mm.group(1)[:300]))
+            if tf:
+                res["log"] = "translators that failed on the current source:\n  " + "\n  ".join(tf) + "\n" + res["log"]
             log("PROOF CHECK FAILED for %s:\n%s" % (self.pid, res["log"]))
             if res["bad_axioms"]:
                 log("unexpected axioms: %s" % res["bad_axioms"])
